@@ -356,3 +356,18 @@ pub fn hex(bytes: &[u8]) -> String {
     }
     s
 }
+
+/// Records what the worker is about to do, so that the parent can attach it to
+/// the witness if the process dies (the simulator's panic hook exits).
+pub fn set_context(v: &Value) {
+    let dir = driver::verif_dir().join("harness").join("target").join("scratch");
+    let _ = std::fs::create_dir_all(&dir);
+    let _ = std::fs::write(dir.join(format!("ctx-{}.json", std::process::id())), v.to_string());
+}
+
+pub fn take_context(pid: u32) -> Option<Value> {
+    let p = driver::verif_dir().join("harness").join("target").join("scratch").join(format!("ctx-{pid}.json"));
+    let t = std::fs::read_to_string(&p).ok()?;
+    let _ = std::fs::remove_file(&p);
+    serde_json::from_str(&t).ok()
+}
